@@ -135,8 +135,8 @@ type digT struct {
 }
 
 var insts []instT
-var uuidR, uuidV, uuidW, uuidU string
-var verV dvid.VersionID
+var uuidR, uuidV, uuidW, uuidU, uuidX string
+var verV, verX dvid.VersionID // the protected (committed) versions
 
 func storesOf() []storage.OrderedKeyValueDB {
 	seen := map[string]bool{}
@@ -181,7 +181,7 @@ func digest() digT {
 			}
 			put(ha)
 			dg.NAll++
-			if v, err := storage.VersionFromDataKey(kv.K); err == nil && v == verV {
+			if v, err := storage.VersionFromDataKey(kv.K); err == nil && (v == verV || v == verX) {
 				put(hv)
 				dg.NV++
 			}
@@ -204,20 +204,26 @@ func digest() digT {
 		fmt.Fprintf(hm, "tags=%v;", d.Tags())
 	}
 	dg.Meta = hex.EncodeToString(hm.Sum(nil)[:8])
-	note, _ := datastore.GetNodeNote(dvid.UUID(uuidV))
-	log, _ := datastore.GetNodeLog(dvid.UUID(uuidV))
-	locked, _ := datastore.LockedUUID(dvid.UUID(uuidV))
-	dg.Node = fmt.Sprintf("%q|%q|%v", note, log, locked)
+	for _, u := range []string{uuidV, uuidX} {
+		note, _ := datastore.GetNodeNote(dvid.UUID(u))
+		log, _ := datastore.GetNodeLog(dvid.UUID(u))
+		locked, _ := datastore.LockedUUID(dvid.UUID(u))
+		dg.Node += fmt.Sprintf("%q|%q|%v;", note, log, locked)
+	}
 	return dg
 }
 
 // quiesce waits until no instance reports pending sync events or running updates
 // (datastore.BlockOnUpdating without its fixed 100 ms sleep per instance).
 func quiesce(careful bool) {
-	need := 1
 	if careful {
-		need = 6
+		quiesceN(6)
+	} else {
+		quiesceN(1)
 	}
+}
+
+func quiesceN(need int) {
 	calm := 0
 	for i := 0; i < 5000 && calm < need; i++ {
 		busy := false
@@ -340,7 +346,8 @@ type caseT struct {
 	FW     bool   `json:"fw"`
 	Admin  bool   `json:"admin"`      // a token is configured and presented
 	Wrong  bool   `json:"wrongtoken"` // a token is configured, another one presented
-	Target string `json:"target"`     // V (committed, protected) | W (committed sibling) | U (open child of V)
+	Target string `json:"target"`     // V (committed, protected) | W (committed sibling) | U (open child of V) | X (committed HEAD of its branch, protected)
+	Form   string `json:"ref_form,omitempty"` // how the URL names the node when not by its full uuid (see refForms)
 	PI     int    `json:"probe_index"`
 	Req    reqT   `json:"req"`
 }
@@ -381,7 +388,7 @@ func (c caseT) coq() string {
 	if c.Admin {
 		mode |= 4
 	}
-	tgt := map[string]int{"V": 0, "W": 1, "U": 2}[c.Target]
+	tgt := map[string]int{"V": 0, "W": 1, "U": 2, "X": 3}[c.Target]
 	return fmt.Sprintf("CReq %d %d (%s) %d %s %d %d", mode, tgt, r, midx(q.Method), lib.CoqBool(q.Unv), q.Obs, q.Chg)
 }
 
@@ -461,7 +468,7 @@ func send(q *reqT, m modeT, body []byte, last *digT, instanceRoute bool) {
 	q.Chg = diffBits(*last, now)
 	if q.Chg != 0 {
 		// let every asynchronous consequence of this request land before the next one is judged
-		time.Sleep(120 * time.Millisecond)
+		time.Sleep(60 * time.Millisecond)
 		quiesce(true)
 		now = digest()
 		q.Chg = diffBits(*last, now)
@@ -472,6 +479,21 @@ func send(q *reqT, m modeT, body []byte, last *digT, instanceRoute bool) {
 	*last = now
 }
 
+// sendResolved: a "branch~n" reference walks the branch from its HEAD; once a node has two children
+// on one branch (DVID accepts a second newversion on the same branch) that walk fails or not
+// depending on map iteration order.  Such an answer says nothing about the gate: retry, then drop.
+func sendResolved(q *reqT, m modeT, body []byte, last *digT, instanceRoute bool) bool {
+	for try := 0; try < 8; try++ {
+		send(q, m, body, last, instanceRoute)
+		if q.Status == 400 && (strings.Contains(q.Resp, "has more than 1 child") || strings.Contains(q.Resp, "could not find UUID") ||
+			strings.Contains(q.Resp, "more than one UUID matches") || strings.Contains(q.Resp, "not found in repo")) {
+			continue
+		}
+		return true
+	}
+	return false
+}
+
 func urlFor(uuid string, in instT, kw string, sp probeT) string {
 	u := "/api/node/" + uuid + "/" + in.Name + "/" + kw + sp.Suffix + "?u=verif"
 	if sp.Query != "" {
@@ -480,7 +502,7 @@ func urlFor(uuid string, in instT, kw string, sp probeT) string {
 	return u
 }
 
-var uuidOf = map[string]*string{"V": &uuidV, "W": &uuidW, "U": &uuidU}
+var uuidOf = map[string]*string{"V": &uuidV, "W": &uuidW, "U": &uuidU, "X": &uuidX}
 
 func addCase(run *lib.Run, c caseT, key string) {
 	run.Add("request", c.coq(), c, key)
@@ -506,6 +528,18 @@ func modeOf(c caseT) modeT {
 // runs: the URL is rebuilt from the route reference, the instance name and the probe index).
 func replayCase(run *lib.Run, c caseT, rj routesJSON, entries []entryT, rng *lib.Rand) {
 	uuid := *uuidOf[c.Target]
+	if c.Form != "" {
+		found := false
+		for _, f := range refForms(c.Target) {
+			if f.Name == c.Form {
+				uuid, found = f.Ref, true
+			}
+		}
+		if !found {
+			fmt.Fprintln(os.Stderr, "c02 replay: reference form", c.Form, "does not resolve to", c.Target)
+			os.Exit(2)
+		}
+	}
 	m := modeOf(c)
 	last := digest()
 	q := c.Req
@@ -584,7 +618,12 @@ func main() {
 	rj, entries := loadRoutes()
 	dv.Quiet()
 	dv.Open()
-	defer dv.Close()
+	closed := false
+	defer func() {
+		if !closed {
+			dv.Close()
+		}
+	}()
 	server.VerifSetModes(false, false, "")
 	startHeartbeat()
 
@@ -604,7 +643,17 @@ func main() {
 		json.Unmarshal(raw["kind"], &kind)
 		switch kind {
 		case "stability", "stability-instance":
-			stability(run, rng, o)
+			var st struct {
+				Config string `json:"config"`
+			}
+			lib.LoadReplay(o.Replay, &st)
+			if st.Config == cacheConfig {
+				dv.Close()
+				closed = true
+				reopenWithCache(run)
+				defer server.CloseTest()
+			}
+			stability(run, rng, o, st.Config)
 		case "request":
 			var c caseT
 			lib.LoadReplay(o.Replay, &c)
@@ -626,6 +675,14 @@ func main() {
 
 	last := digest()
 	covered := map[string]bool{}
+	phases := map[string]float64{}
+	t0 := time.Now()
+	lap := func(name string) {
+		phases[name] = time.Since(t0).Seconds()
+		t0 = time.Now()
+		run.Extra["phase_s"] = phases
+	}
+	lap("setup")
 
 	type workT struct {
 		e  entryT
@@ -696,7 +753,7 @@ func main() {
 		}
 	}
 
-	frac := 0.1
+	frac := 0.08
 	if o.Thorough() {
 		frac = 1
 	}
@@ -705,6 +762,7 @@ func main() {
 	}
 	// 1. default mode against the committed V: every route x every method (the C02 matrix and the GET side-effect check)
 	sweep(modeDefault, "V", 1)
+	lap("default-V")
 	// 2. a configured token that the request does not present changes nothing
 	sweep(modeWrong, "V", frac)
 	// 3. read-only mode, committed and open node
@@ -716,6 +774,74 @@ func main() {
 	sweep(modeAdminRO, "W", frac)
 	// 5. the open child U in default mode: the gate lets writes through, V stays untouched
 	sweep(modeDefault, "U", frac*2)
+	lap("other-modes")
+
+	// 6. the same gate through every other way of naming the committed nodes V and X (default mode)
+	// per form: one write endpoint of every instance with POST and DELETE (always), a thin random
+	// sample of the rest of the matrix, and the non-branching node / repo routes
+	forcedKw := map[string]string{"keyvalue": "key", "neuronjson": "key", "labelmap": "raw", "labelarray": "raw", "labelblk": "raw",
+		"imageblk": "raw", "annotation": "elements", "roi": "roi", "tarsupervoxels": "supervoxel", "labelsz": "sync",
+		"labelvol": "sync", "imagetile": "metadata", "multichan16": "*"}
+	nforms := map[string]int{}
+	resolves := func(ref, target string) bool {
+		got, _, err := datastore.MatchingUUID(ref)
+		return err == nil && string(got) == *uuidOf[target]
+	}
+	for _, target := range []string{"V", "X"} {
+		for _, f := range refForms(target) {
+			nforms[target]++
+			ref := f.Ref
+			for _, w := range work {
+				for _, meth := range methods {
+					forced := forcedKw[w.e.Pkg] == w.e.Kw && (meth == "post" || meth == "delete")
+					if !forced && !rng.Chance(frac*0.04) {
+						continue
+					}
+					if !resolves(ref, target) {
+						run.Count("form-no-longer-resolves:" + f.Name)
+						continue
+					}
+					sp := probesFor(w.e.Pkg, w.e.Kw, meth, w.in)[0]
+					c := mkCase("request", modeDefault, target)
+					c.Form = f.Name
+					c.Req = reqT{Ref: "idx", Idx: w.e.Idx, Pkg: w.e.Pkg, Kw: w.e.Kw, Inst: w.in.Name, Unv: w.in.Unversioned, Method: meth}
+					kw := w.e.Kw
+					if kw == "*" {
+						kw = sp.Star
+					}
+					c.Req.URL = urlFor(ref, w.in, kw, sp)
+					if !sendResolved(&c.Req, modeDefault, sp.Body, &last, true) {
+						run.Count("form-did-not-resolve:" + f.Name)
+						continue
+					}
+					addCase(run, c, fmt.Sprintf("alias/%s/%s/%d/%s/%s", target, f.Name, w.e.Idx, w.in.Name, meth))
+					run.Count("form:" + f.Name)
+				}
+			}
+			for _, nr := range nodeRepoProbes(rj, ref) {
+				if nr.Action == "branch" || nr.Action == "newversion" || nr.Action == "tag" || nr.Action == "merge" || nr.Action == "resolve" {
+					continue // the shape of the DAG (X a HEAD, V at a fixed depth of master) must not move
+				}
+				for _, meth := range []string{"post", "delete", "get"} {
+					if !resolves(ref, target) {
+						continue
+					}
+					c := mkCase("request", modeDefault, target)
+					c.Form = f.Name
+					c.Req = reqT{Ref: nr.Ref, Kw: nr.Action, Method: meth, URL: nr.URL}
+					if !sendResolved(&c.Req, modeDefault, nr.Body(meth, rng), &last, false) {
+						run.Count("form-did-not-resolve:" + f.Name)
+						continue
+					}
+					addCase(run, c, fmt.Sprintf("alias/%s/%s/%s/%s/%s", target, f.Name, nr.Ref, nr.Action, meth))
+					run.Count("form:" + f.Name)
+				}
+			}
+		}
+	}
+	lap("alias")
+	run.Add("alias-forms", fmt.Sprintf("CAlias %d %d", nforms["V"], nforms["X"]),
+		map[string]interface{}{"kind": "alias-forms", "V": refForms("V"), "X": refForms("X")}, "alias-forms")
 
 	// coverage of the generated table by batch 1
 	var cov []string
@@ -752,12 +878,41 @@ func main() {
 	sort.Strings(notInst)
 	run.Extra["packages_not_instantiable_offline"] = notInst
 
-	// 6. read stability
-	stability(run, rng, o)
+	// 7. read stability, default configuration
+	stability(run, rng, o, "default")
+	lap("stability")
+
+	// 8. read stability again on a server configured with the labelmap label-index cache
+	//    ([cache.labelmap] size in the TOML; server.OpenTest(TestConfig{CacheSize}) in-process)
+	dv.Close()
+	closed = true
+	reopenWithCache(run)
+	lap("setup-cache")
+	stability(run, rng, o, cacheConfig)
+	lap("stability-cache")
+	server.CloseTest()
 
 	run.Finish("c02case",
 		"every generated (datatype package, keyword) of the instantiable packages x {GET,HEAD,POST,PUT,DELETE,PATCH} with write-plausible bodies against a committed version in default mode (exhaustive over the generated table), seeded samples of the same matrix with a wrong token / in read-only / full-write / admin modes and on an open child, node- and repo-level routes in every mode; four store digests after every request; then a random later history with a full GET snapshot of the committed version before and after; distinct = distinct (mode, target, route, instance, method)",
 		tail)
+}
+
+const cacheConfig = "labelmap-index-cache"
+
+// reopenWithCache opens a fresh test datastore on a server whose configuration enables the
+// labelmap label-index cache, and rebuilds the repo.
+func reopenWithCache(run *lib.Run) {
+	insts = nil
+	if err := server.OpenTest(server.TestConfig{CacheSize: map[string]int{"labelmap": 10}}); err != nil {
+		fmt.Fprintln(os.Stderr, "c02: cannot open the cache-enabled test server:", err)
+		os.Exit(2)
+	}
+	if server.CacheSize("labelmap") == 0 {
+		fmt.Fprintln(os.Stderr, "c02: labelmap cache size is 0 after OpenTest")
+		os.Exit(2)
+	}
+	server.VerifSetModes(false, false, "")
+	setup(run)
 }
 
 func toInt(v interface{}) int {
